@@ -245,11 +245,11 @@ def abort_oracle(pid, case, impl, variants):
 
 
 # scenario families (harness/scenarios.py) per property: structured interaction matrices next to the random streams
-SCEN = {'C01': ['attrs', 'blockdefs', 'macros'], 'C02': ['macros', 'lists'], 'C03': ['blockdefs', 'attrs', 'inline'],
-        'C04': ['options', 'blockdefs'], 'C05': ['blockdefs', 'options', 'repeat'], 'C06': ['inline', 'lists'],
-        'C07': ['inline'], 'C08': ['dispatch', 'attrs'], 'C09': ['inline', 'dispatch'], 'C10': ['lists'],
-        'C11': ['macros'], 'C12': ['attrs', 'lists'], 'C13': ['lists', 'ids'], 'C14': ['repeat', 'options'],
-        'C15': ['ids'], 'C16': ['dispatch', 'lists'], 'C17': ['inline', 'dispatch'], 'C19': ['options', 'blockdefs', 'macros'],
+SCEN = {'C01': ['attrs', 'blockdefs', 'macros', 'redefs'], 'C02': ['macros', 'lists'], 'C03': ['blockdefs', 'attrs', 'inline'],
+        'C04': ['options', 'blockdefs', 'redefs'], 'C05': ['blockdefs', 'options', 'repeat', 'redefs'], 'C06': ['inline', 'lists'],
+        'C07': ['inline', 'redefs'], 'C08': ['dispatch', 'attrs'], 'C09': ['inline', 'dispatch'], 'C10': ['lists'],
+        'C11': ['macros'], 'C12': ['attrs', 'lists'], 'C13': ['lists', 'ids'], 'C14': ['repeat', 'options', 'redefs'],
+        'C15': ['ids'], 'C16': ['dispatch', 'lists'], 'C17': ['inline', 'dispatch', 'redefs'], 'C19': ['options', 'blockdefs', 'macros'],
         'C20': ['options']}
 
 
